@@ -99,6 +99,7 @@ impl<T: Message<Response = ()> + Clone> Handler<Publish<T>> for Broker<T> {
             .collect::<Vec<_>>();
         #[cfg(hannibal_verif)]
         {
+            crate::verif::broker_msg(_ctx.id, &msg.0);
             crate::verif::broker(_ctx.id, "publish", 0);
             for subscriber in &live_subscribers {
                 crate::verif::broker(_ctx.id, "holds", subscriber.verif_id().raw());
